@@ -45,14 +45,14 @@ const closeGrace = (3*userConnTimeoutS + 10) * time.Second
 
 type serverSet struct {
 	srv                                *h.Server
-	bind, https, mux, http, lo, hi, mp int
+	bind, https, mux, http, quic, lo, hi, mp int
 }
 
 var servers []*serverSet // index = maxPoolCount-1 (1..5)
 
 func startServers() {
 	for mp := 1; mp <= 5; mp++ {
-		ps := pa.Block(4)
+		ps := pa.Block(5)
 		lo := 21100 + (mp-1)*150
 		hi := lo + 149
 		srv, err := h.StartServerText(prop, fmt.Sprintf(`
@@ -61,16 +61,18 @@ bindPort = %d
 vhostHTTPSPort = %d
 tcpmuxHTTPConnectPort = %d
 vhostHTTPPort = %d
+kcpBindPort = %d
+quicBindPort = %d
 auth.token = "%s"
 userConnTimeout = %d
 transport.maxPoolCount = %d
 allowPorts = [{start=%d,end=%d}]
-`, ps[0], ps[1], ps[2], ps[3], token, userConnTimeoutS, mp, lo, hi))
+`, ps[0], ps[1], ps[2], ps[3], ps[0], ps[4], token, userConnTimeoutS, mp, lo, hi))
 		if err != nil {
 			fmt.Fprintln(os.Stderr, "server:", err)
 			os.Exit(h.ExitHarnessError)
 		}
-		servers = append(servers, &serverSet{srv: srv, bind: ps[0], https: ps[1], mux: ps[2], http: ps[3], lo: lo, hi: hi, mp: mp})
+		servers = append(servers, &serverSet{srv: srv, bind: ps[0], https: ps[1], mux: ps[2], http: ps[3], quic: ps[4], lo: lo, hi: hi, mp: mp})
 	}
 }
 
@@ -93,7 +95,7 @@ func (s *serverSet) remotePort() int {
 
 func main() {
 	run = h.NewRun(prop, "exploration")
-	run.Rule = "scenarios from the case PRNG: A supply mode x pool size x users (exactly-once join), B pool bounds (pool_count 0..8 and hostile values x maxPoolCount 1..5, unsolicited floods), C session end with teardown / registration gates, D hand-off gate per accept path, F announcement (proxy name, user address) on each of 8 accept paths; distinct = distinct (scenario, parameters, hook trace signature)"
+	run.Rule = "scenarios from the case PRNG: A supply mode x pool size x users (exactly-once join), B pool bounds (pool_count 0..8 and hostile values x maxPoolCount 1..5, unsolicited floods), C session end with teardown / registration gates, D hand-off gate per accept path, F announcement (proxy name, user address) on each of 10 accept paths (visitor clients over tcp, kcp and quic), G 6-12 simultaneous users with slow answers on one vhost http route; distinct = distinct (scenario, parameters, hook trace signature)"
 	run.Assumptions = []string{
 		"users are identified by a 16-byte nonce they send first; work connections are numbered by the scripted client that opens them",
 		fmt.Sprintf("userConnTimeout is %d s; 'closed within the timeout' is decided by a %v bounded-progress watchdog (still open afterwards = left open)", userConnTimeoutS, closeGrace),
@@ -120,7 +122,8 @@ func main() {
 	})
 	nHand := run.N(32, 1200)
 	run.ParallelRange(1000000, nHand, 32, scenarioHandoff)
-	run.ParallelRange(3000000, run.N(32, 960), 16, scenarioAnnounce)
+	run.ParallelRange(3000000, run.N(40, 1000), 16, scenarioAnnounce)
+	run.ParallelRange(4000000, run.N(8, 120), 8, scenarioHTTPFanout)
 	startPluginServer()
 	run.ParallelRange(2000000, run.N(12, 240), 12, scenarioPluginReject)
 	for _, s := range servers {
@@ -907,7 +910,7 @@ func scenarioPluginReject(c *h.Case) {
 // ---------------------------------------------------------------------------------------------
 // F. every accept path announces the work connection with the proxy's name and the user's real address
 
-var announcePaths = []string{"tcp-direct", "tcp-group", "https-muxer", "tcpmux-muxer", "tcpmux-group", "http-vhost", "http-group", "stcp-visitor"}
+var announcePaths = []string{"tcp-direct", "tcp-group", "https-muxer", "tcpmux-muxer", "tcpmux-group", "http-vhost", "http-group", "stcp-visitor", "stcp-visitor-kcp", "stcp-visitor-quic"}
 
 func scenarioAnnounce(c *h.Case) {
 	rng := c.Rng
@@ -967,6 +970,23 @@ func scenarioAnnounce(c *h.Case) {
 	default:
 		m = &msg.NewProxy{ProxyName: pname, ProxyType: "stcp", Sk: "sk", AllowUsers: []string{"*"}}
 		dstPort = ss.bind
+		if path == "stcp-visitor-quic" {
+			dstPort = ss.quic
+		}
+	}
+	// the visitor's own client reaches frps over tcp, kcp or quic (the user address is then a UDP address)
+	vp := p
+	if path == "stcp-visitor-kcp" || path == "stcp-visitor-quic" {
+		o := h.PeerOpts{ServerPort: ss.bind, Protocol: "kcp", TCPMux: true, Token: token}
+		if path == "stcp-visitor-quic" {
+			o.ServerPort, o.Protocol = ss.quic, "quic"
+		}
+		vp, err = h.DialPeer(o)
+		if err != nil || !vp.LoggedIn() {
+			run.Inconclusive("visitor client login failed (" + path + ")")
+			return
+		}
+		defer vp.Close()
 	}
 	resp, err := p.NewProxy(m, 10*time.Second)
 	if err != nil || resp.Error != "" {
@@ -989,7 +1009,7 @@ func scenarioAnnounce(c *h.Case) {
 		default:
 			now := time.Now().Unix()
 			var vr *msg.NewVisitorConnResp
-			uc, vr, err = p.OpenVisitorConn(&msg.NewVisitorConn{RunID: p.RunID, ProxyName: pname, SignKey: h.AuthKey("sk", now), Timestamp: now}, 10*time.Second)
+			uc, vr, err = vp.OpenVisitorConn(&msg.NewVisitorConn{RunID: vp.RunID, ProxyName: pname, SignKey: h.AuthKey("sk", now), Timestamp: now}, 10*time.Second)
 			if err == nil && vr.Error != "" {
 				uc.Close()
 				err = fmt.Errorf("visitor refused: %s", vr.Error)
@@ -1038,6 +1058,9 @@ func scenarioAnnounce(c *h.Case) {
 		if st.ProxyName != pname {
 			c.Violation("startworkconn-names-other-proxy", "%s: work connection announced for proxy %q, the user's proxy is %q", path, st.ProxyName, pname)
 		}
+		if _, lp, _ := net.SplitHostPort(local); strings.HasSuffix(path, "-kcp") || strings.HasSuffix(path, "-quic") {
+			local = net.JoinHostPort("127.0.0.1", lp) // a UDP client socket may be bound to the wildcard address
+		}
 		if got := net.JoinHostPort(st.SrcAddr, fmt.Sprint(st.SrcPort)); got != local {
 			c.Violation("startworkconn-wrong-user-address-"+path, "%s: StartWorkConn for proxy %s says the user is %q, the user's socket is %s", path, pname, got, local)
 		}
@@ -1053,5 +1076,119 @@ func scenarioAnnounce(c *h.Case) {
 	run.Distinct(fmt.Sprintf("announce|%s|%d|%d|%d", path, pool, nUsers, ss.mp))
 	if c.Idx < 3000008 {
 		run.Sample(map[string]any{"scenario": "announce", "path": path, "users": nUsers})
+	}
+}
+
+// ---------------------------------------------------------------------------------------------
+// G. many simultaneous users on ONE vhost http route while earlier requests are still being answered: every
+// user gets a work connection of its own (or is closed) within the user-connection timeout — none is parked
+
+func scenarioHTTPFanout(c *h.Case) {
+	rng := c.Rng
+	ss := servers[rng.Intn(len(servers))]
+	nUsers := 6 + rng.Intn(7)
+	grouped := rng.Intn(3) == 0
+	c.Data["users"], c.Data["grouped"] = nUsers, grouped
+	domain := fmt.Sprintf("f%d.fanout.test", c.Idx)
+	pname := fmt.Sprintf("f%d.px", c.Idx)
+	release := make(chan struct{})
+	var once sync.Once
+	rel := func() { once.Do(func() { close(release) }) }
+	defer rel()
+	var mu sync.Mutex
+	announced := map[string]time.Time{}
+	handler := func(p *h.Peer, wc *h.WorkConn) {
+		defer wc.Conn.Close()
+		mu.Lock()
+		announced[net.JoinHostPort(wc.Start.SrcAddr, fmt.Sprint(wc.Start.SrcPort))] = time.Now()
+		mu.Unlock()
+		br := bufio.NewReader(wc.Conn)
+		if _, err := http.ReadRequest(br); err != nil {
+			return
+		}
+		<-release // a slow backend: the answer comes only after every user was judged
+		_, _ = wc.Conn.Write([]byte("HTTP/1.1 200 OK\r\nContent-Length: 2\r\nConnection: close\r\n\r\nok"))
+	}
+	p, err := h.DialPeer(h.PeerOpts{ServerPort: ss.bind, TCPMux: true, Token: token, PoolCount: rng.Intn(3), AutoWork: true, WorkHandler: handler})
+	if err != nil || !p.LoggedIn() {
+		run.Inconclusive("login failed")
+		return
+	}
+	defer p.Close()
+	m := &msg.NewProxy{ProxyName: pname, ProxyType: "http", CustomDomains: []string{domain}}
+	if grouped {
+		m.Group, m.GroupKey = fmt.Sprintf("f%d.grp", c.Idx), "k"
+	}
+	if resp, err := p.NewProxy(m, 10*time.Second); err != nil || resp.Error != "" {
+		run.Inconclusive("registration failed")
+		return
+	}
+	type user struct {
+		c     net.Conn
+		local string
+		t0    time.Time
+	}
+	var users []*user
+	defer func() {
+		for _, u := range users {
+			u.c.Close()
+		}
+	}()
+	for i := 0; i < nUsers; i++ {
+		uc, err := net.DialTimeout("tcp", fmt.Sprintf("127.0.0.1:%d", ss.http), 5*time.Second)
+		if err != nil {
+			run.Inconclusive("dial failed")
+			return
+		}
+		u := &user{c: uc, local: uc.LocalAddr().String(), t0: time.Now()}
+		users = append(users, u)
+		fmt.Fprintf(uc, "GET /u%d HTTP/1.1\r\nHost: %s\r\n\r\n", i, domain)
+		if rng.Intn(2) == 0 {
+			time.Sleep(time.Duration(rng.Intn(5)) * time.Millisecond)
+		}
+	}
+	// bounded progress: each user is announced to the owner (a work connection of its own was started) or closed
+	// within userConnTimeout + 1.5 s + 20 x the worst timer overshoot measured meanwhile
+	t0 := users[0].t0
+	pending := func() (out []*user) {
+		mu.Lock()
+		defer mu.Unlock()
+		for _, u := range users {
+			if _, ok := announced[u.local]; !ok {
+				out = append(out, u)
+			}
+		}
+		return
+	}
+	for {
+		over := load.MaxOvershoot(t0)
+		bound := userConnTimeoutS*time.Second + 1500*time.Millisecond + 20*over
+		left := pending()
+		if len(left) == 0 || time.Since(users[len(users)-1].t0) > bound {
+			break
+		}
+		time.Sleep(50 * time.Millisecond)
+	}
+	left := pending()
+	stuck := 0
+	for _, u := range left {
+		// not announced: then it must have been closed (or answered with an error page) by now
+		_ = u.c.SetReadDeadline(time.Now().Add(200 * time.Millisecond))
+		var b [1]byte
+		_, err := u.c.Read(b[:])
+		if ne, ok := err.(net.Error); ok && ne.Timeout() {
+			stuck++
+		}
+	}
+	run.Count("http_fanout_users", int64(nUsers))
+	run.Count("http_fanout_users_announced", int64(nUsers-len(left)))
+	if stuck > 0 {
+		c.Violation("user-connection-left-open-without-peer-http", "%d simultaneous requests on one vhost http route (grouped=%v, maxPoolCount %d) while earlier ones are still being answered: %d users have neither been given a work connection nor been closed %v after their request (userConnTimeout %d s, worst timer overshoot %v)",
+			nUsers, grouped, ss.mp, stuck, time.Since(users[len(users)-1].t0).Round(10*time.Millisecond), userConnTimeoutS, load.MaxOvershoot(t0))
+	}
+	rel()
+	run.Distinct(fmt.Sprintf("fanout|%d|%v|%d", nUsers, grouped, ss.mp))
+	if c.Idx < 4000002 {
+		run.Sample(map[string]any{"scenario": "http-fanout", "users": nUsers, "announced": nUsers - len(left), "stuck": stuck})
 	}
 }
